@@ -184,10 +184,24 @@ pub fn run_recipe(ctx: &mut Ctx, v: &J, scratch: &str) {
     if !small {
         ctx.nontrivial.insert(h);
     }
-    for ty in v["entry"].as_array().cloned().unwrap_or_default() {
+    let accept_exp: Vec<Option<bool>> = v["accept"].as_array().map(|a| a.iter().map(|x| x.as_bool()).collect()).unwrap_or_default();
+    for (ti, ty) in v["entry"].as_array().cloned().unwrap_or_default().into_iter().enumerate() {
         let ty = ty.as_str().unwrap_or("");
         ctx.evaluations += 1;
         ctx.judged += 1;
+        // where the specification could still evaluate the recipe: acceptance must agree (nesting depth is not a reason to reject)
+        if let Some(Some(want)) = accept_exp.get(ti) {
+            let o = guarded_decode_and_follow(ty, "", "slice", &bytes);
+            if o.bad.is_none() && o.accepted != *want {
+                ctx.mismatch(&p, v, if *want { "nested-input-rejected" } else { "nested-input-accepted" }, json!({"entry": ty, "len": bytes.len(), "reps": reps}));
+            }
+            if o.accepted {
+                ctx.nontrivial.insert(h);
+            }
+            if p != "C01" {
+                continue;
+            }
+        }
         if small {
             let o = guarded_decode_and_follow(ty, "", "slice", &bytes);
             if o.accepted {
